@@ -16,6 +16,7 @@ from common import ToolError, log
 
 LEVEL = "model_checking"
 BIN = "c01"
+EXTRA_CFGS = []
 
 
 def progs_from(r):
@@ -47,6 +48,8 @@ def configs(chk):
     if not r.ok:
         raise ToolError("spec Configs: " + str(r.violated))
     cfgs = common.tagged(r.prints, "CFGS")[0]
+    global EXTRA_CFGS
+    EXTRA_CFGS = sorted(common.tagged(r.prints, "CFGSX")[0], key=lambda c: json.dumps(c, sort_keys=True))
     classes = common.tagged(r.prints, "CLASSES")[0]
     fritable = common.tagged(r.prints, "FRITABLE")[0]
     chk.extra["config_lattice"] = len(cfgs)
@@ -97,7 +100,7 @@ def make_scenarios(progs, cfgs, classes, rnd, tag, std_share=0.34):
     std = {"zk": False, "strat": "const", "arities": [4, 5], "rate": 3, "cap": 4, "nch": 2, "width": "std", "q": 28,
            "pow": 16, "keccak": False}
     rows = []
-    nozk = [c for c in cfgs if not c["zk"]]
+    nozk = [c for c in cfgs if not c["zk"]] + EXTRA_CFGS
     zk = [c for c in cfgs if c["zk"]]
     for i, p in enumerate(progs):
         u = rnd.random()
